@@ -20,7 +20,8 @@ Definition obs_eqb (a b : obs) : bool :=
 
 Inductive case :=
 | KHist (ops : list op) (observed : list obs)
-| KRace (k : nat) (successes : nat) (present_after : bool).
+| KRace (k : nat) (successes : nat) (present_after : bool)
+| KERace (k : nat) (successes : nat) (present_after : bool).   (* k concurrent ensure calls, one definition *)
 
 (* a complete schedule for k racing creators: everybody checks, then everybody inserts *)
 Definition full_sched (k : nat) : list nat := seq 0 k ++ seq 0 k.
@@ -31,6 +32,9 @@ Definition check (c : case) : bool :=
   | KRace k succ pres =>
       let s := crun (full_sched k) {| c_present := false; c_pc := repeat 0 k |} in
       Nat.eqb (count_pc 2 s) succ && Bool.eqb (c_present s) pres
+  | KERace k succ pres =>
+      let s := erun true (efull_sched k) (einit k) in
+      forallb epc_done (e_pc s) && Nat.eqb (count_ok s) succ && Bool.eqb (e_present s) pres
   end.
 
 Definition mismatches (l : list case) : list nat := mismatches_of check l.
